@@ -257,7 +257,16 @@ def check_one(case, ctx, files=True):
                 if ok:
                     same_triple('reader/wiki-table', ctx.call('read_wikitable', q, tf.read_wikitable, text))
                 ctx.check(text == context.tostring('wikitable'), 'wiki-alias', q, 'wikitable alias gives different text')
-            elif f == 'index':
+            if files and f in ('table', 'cxt', 'csv', 'python-literal'):
+                # an explicitly given format wins over the file name: write and read under the suffix of ANOTHER format
+                foreign = {'table': '.cxt', 'cxt': '.txt', 'csv': '.py', 'python-literal': '.csv'}[f]
+                path = work.path('foreign-' + f.replace('-', '') + suffix_case(foreign, cfg['upper'] + 1))
+                dump_kw = dict(kw) if f == 'csv' else ({'indent': cfg['indent']} if f == 'table' else {})
+                read_kw = dict(load_kw) if f == 'csv' else {}
+                ctx.call(f'tofile({f}, foreign suffix)', q, lambda: context.tofile(path, f, enc, **dump_kw))
+                same('roundtrip/explicit-format-foreign-suffix',
+                     ctx.call(f'fromfile({f}, foreign suffix)', q, lambda: concepts.Context.fromfile(path, f, enc, **read_kw)))
+            if f == 'index':
                 text = ctx.call('tostring(fimi)', q, context.tostring, 'fimi')
                 want = [tuple(j for j, b in enumerate(row) if b) for row in bools]
                 got = ctx.call('read_fimi', q, tf.read_fimi, text)
